@@ -55,6 +55,15 @@ def module_consts(module) -> Dict[str, ast.AST]:
         elif isinstance(st, ast.AugAssign) and isinstance(st.target, ast.Name):
             seen.setdefault(st.target.id, []).append(None)
     glob = {n for node in ast.walk(module.tree) if isinstance(node, ast.Global) for n in node.names}
+    # a module level list / set that some code mutates is state, not a constant
+    for node in ast.walk(module.tree):
+        if isinstance(node, ast.Call) and isinstance(node.func, ast.Attribute) and isinstance(node.func.value, ast.Name) \
+                and node.func.attr in ('append', 'extend', 'insert', 'add', 'update', 'remove', 'pop', 'clear', 'sort', 'reverse', 'discard', 'setdefault'):
+            glob.add(node.func.value.id)
+        elif isinstance(node, (ast.Assign, ast.AugAssign, ast.Delete)):
+            for t in (node.targets if not isinstance(node, ast.AugAssign) else [node.target]):
+                if isinstance(t, ast.Subscript) and isinstance(t.value, ast.Name):
+                    glob.add(t.value.id)
     res = {k: v[0] for k, v in seen.items() if len(v) == 1 and v[0] is not None and k not in glob and _literalish(v[0])}
     module._c13_consts = res
     return res
@@ -632,6 +641,7 @@ class GenericCopy:
     def __init__(self, call, dst, srcobj, keyvar, conds, loop):
         self.call, self.dst, self.src, self.keyvar, self.conds, self.loop = call, dst, srcobj, keyvar, conds, loop
         self.live: List[Tuple[str, ast.AST, ast.stmt]] = []     # (name, value, assignment) of once-computed LIVE dict views of dst
+        self.wrap = None        # (function name, call node) when the copied value is passed through F(..)
 
 
 _SNAPSHOT = ('list', 'tuple', 'set', 'frozenset', 'sorted')
@@ -721,6 +731,27 @@ def generic_copies(ctx, func: Func) -> List[GenericCopy]:
                 continue
             # value must be the source object's attribute of the same key (or the items() value variable)
             vx = fx.x(v)
+            wrap = None
+            if isinstance(vx, ast.Call) and isinstance(vx.func, ast.Name) and len(vx.args) == 1 and not vx.keywords \
+                    and not isinstance(vx.args[0], ast.Starred) and get_attr_expr(vx) is None:
+                # dst.k = F(src.k): the value goes through a one-argument function (str() keeps the text the property compares)
+                inner_v = v.args[0] if isinstance(v, ast.Call) and len(v.args) == 1 else None
+                if get_attr_expr(vx.args[0]) is not None or (isinstance(inner_v, ast.Name) and len(names) == 2 and inner_v.id == names[1]):
+                    if vx.func.id != 'str':
+                        wrap = (vx.func.id, v)
+                    vx = vx.args[0]
+                    v = inner_v if inner_v is not None else v
+            if wrap is None and get_attr_expr(vx) is None and not isinstance(vx, ast.Name):
+                # a conversion helper that was expanded into a conditional expression: `int(x) if .. else x` with x = src.k
+                leaves = [l for _c, l in split_cases(ctx, func, vx)]
+                base = [l for l in leaves if get_attr_expr(l) is not None]
+                calls = [l for l in leaves if isinstance(l, ast.Call) and isinstance(l.func, ast.Name) and len(l.args) == 1 and not l.keywords
+                         and base and same(l.args[0], base[0])]
+                if base and calls and len(base) + len(calls) == len(leaves) and all(same(b_, base[0]) for b_ in base):
+                    non_str = [c_ for c_ in calls if c_.func.id != 'str']
+                    if non_str:
+                        wrap = (non_str[0].func.id, v)
+                    vx = base[0]
             ga = get_attr_expr(vx)
             ok = False
             if ga is not None and same(ga[0], owner) and isinstance(ga[1], ast.Name) and ga[1].id == k.id:
@@ -730,6 +761,7 @@ def generic_copies(ctx, func: Func) -> List[GenericCopy]:
             if ok:
                 keep = [n.id for n in (dst, owner) if isinstance(n, ast.Name)]
                 gc = GenericCopy(c, dst, owner, k.id, fx.conds(c, keep=keep), fo)
+                gc.wrap = wrap
                 _resolve_once_names(fx, gc, keep)
                 out.append(gc)
             break
